@@ -75,11 +75,92 @@ class Effect:
         return "Effect(%s.%s%r -> %r)" % (self.recv, self.method, self.args, self.result)
 
 
+_consts_cache = {}
+
+
+def consts_of(t):
+    """ids of the uninterpreted constants occurring in a z3 term (cached per term)"""
+    k = t.get_id()
+    r = _consts_cache.get(k)
+    if r is not None:
+        return r
+    out = set()
+    seen = set()
+    stack = [t]
+    while stack:
+        e = stack.pop()
+        i = e.get_id()
+        if i in seen:
+            continue
+        seen.add(i)
+        c = _consts_cache.get(i)
+        if c is not None:
+            out |= c
+            continue
+        if z3.is_const(e):
+            if e.decl().kind() == z3.Z3_OP_UNINTERPRETED:
+                out.add(e.decl().name())
+        elif z3.is_app(e):
+            if e.decl().kind() == z3.Z3_OP_UNINTERPRETED:
+                out.add("fn:" + e.decl().name())
+            stack.extend(e.children())
+        elif z3.is_quantifier(e):
+            stack.append(e.body())
+    r = frozenset(out)
+    _consts_cache[k] = r
+    return r
+
+
+_skel_cache = {}
+_BOOL_OPS = None
+
+
+def bool_skeleton(t):
+    """propositional abstraction of a formula: theory atoms become Boolean constants (cached)"""
+    global _BOOL_OPS
+    if _BOOL_OPS is None:
+        _BOOL_OPS = {z3.Z3_OP_AND, z3.Z3_OP_OR, z3.Z3_OP_NOT, z3.Z3_OP_IMPLIES, z3.Z3_OP_XOR, z3.Z3_OP_TRUE, z3.Z3_OP_FALSE}
+    k = t.get_id()
+    r = _skel_cache.get(k)
+    if r is not None:
+        return r
+    if z3.is_app(t) and z3.is_bool(t):
+        kind = t.decl().kind()
+        ch = t.children()
+        if kind in _BOOL_OPS:
+            args = [bool_skeleton(c) for c in ch]
+            if kind == z3.Z3_OP_AND:
+                r = z3.And(*args) if args else z3.BoolVal(True)
+            elif kind == z3.Z3_OP_OR:
+                r = z3.Or(*args) if args else z3.BoolVal(False)
+            elif kind == z3.Z3_OP_NOT:
+                r = z3.Not(args[0])
+            elif kind == z3.Z3_OP_IMPLIES:
+                r = z3.Implies(args[0], args[1])
+            elif kind == z3.Z3_OP_XOR:
+                r = z3.Xor(args[0], args[1])
+            else:
+                r = t
+        elif kind == z3.Z3_OP_ITE and z3.is_bool(ch[1]):
+            r = z3.If(bool_skeleton(ch[0]), bool_skeleton(ch[1]), bool_skeleton(ch[2]))
+        elif kind in (z3.Z3_OP_EQ, z3.Z3_OP_IFF) and len(ch) == 2 and z3.is_bool(ch[0]):
+            r = bool_skeleton(ch[0]) == bool_skeleton(ch[1])
+        elif z3.is_const(t) and kind == z3.Z3_OP_UNINTERPRETED:
+            r = t
+        else:
+            r = z3.Bool("atom!%d" % k)
+    else:
+        r = z3.Bool("atom!%d" % k)
+    _skel_cache[k] = r
+    return r
+
+
 class State:
     def __init__(self, eng):
         self.eng = eng
         self.pc = []          # path constraints
         self.defs = []        # definitional axioms for fresh symbols (total, kept across merges)
+        self.pcvars = set()   # names of the symbols constrained so far (for cheap independence tests)
         self.heap = {}
         self.frames = []
         self.effects = []
@@ -95,6 +176,7 @@ class State:
         s.eng = self.eng
         s.pc = list(self.pc)
         s.defs = list(self.defs)
+        s.pcvars = set(self.pcvars)
         s.heap = {a: o.copy() for a, o in self.heap.items()}
         s.frames = [f.copy() for f in self.frames]
         s.effects = list(self.effects)
@@ -109,10 +191,12 @@ class State:
     # -- constraints
     def axiom(self, t):
         self.defs.append(t)
+        self.pcvars |= consts_of(t)
 
     def assume(self, t):
         if not z3.is_true(t):
             self.pc.append(t)
+            self.pcvars |= consts_of(t)
 
     def pend(self, g, exc, msg=""):
         if not z3.is_false(g):
@@ -248,7 +332,21 @@ class Engine:
                 return False
         if extra is not None and z3.is_true(extra):
             return True
+        if extra is not None and len(st.pcvars) >= 0:
+            cv = consts_of(extra)
+            if cv and not (cv & st.pcvars) and not any(c.startswith("fn:") for c in cv) and len(cv) <= 2 and self._sat_alone(extra):
+                # the condition only mentions symbols nothing else constrains yet: satisfiable on its own suffices
+                return True
         t0 = time.time()
+        # stage 1: propositional skeleton of the path condition (instant; catches g /\ not g)
+        sk = z3.Solver()
+        sk.set("timeout", 200)
+        for c in cs:
+            sk.add(bool_skeleton(c))
+        if sk.check() == z3.unsat:
+            self.stats["feas_checks"] += 1
+            self.stats["feas_time"] += time.time() - t0
+            return False
         s = z3.Solver()
         s.set("timeout", self.feas_timeout_ms)
         for c in st.defs:
@@ -259,6 +357,17 @@ class Engine:
         self.stats["feas_checks"] += 1
         self.stats["feas_time"] += time.time() - t0
         return r != z3.unsat
+
+    def _sat_alone(self, t):
+        k = ("sat", t.get_id())
+        r = self.class_cache.get(k)
+        if r is None:
+            s = z3.Solver()
+            s.set("timeout", 50)
+            s.add(t)
+            r = s.check() == z3.sat
+            self.class_cache[k] = r
+        return r
 
     # ------------------------------------------------------------------ outcome helpers
     def ok(self, st, v):
